@@ -1256,6 +1256,47 @@ class Flattener(object):
             changed = True
         return changed
 
+    def _desugar_lambda_calls(self, fn):
+        """f = lambda a, b: E   ...   f(x, y)      ==>      ...   E[a := x, b := y]
+        for a name bound once to a lambda, called with names / constants only (no evaluation is duplicated or reordered)"""
+        changed = False
+        for d in [n for n in ast.walk(fn) if isinstance(n, ast.Assign) and len(n.targets) == 1 and isinstance(n.targets[0], ast.Name)
+                  and isinstance(n.value, ast.Lambda)]:
+            name = d.targets[0].id
+            lam = d.value
+            a = lam.args
+            if a.vararg or a.kwarg or a.kwonlyargs or a.defaults or a.posonlyargs:
+                continue
+            if len([n for n in ast.walk(fn) if isinstance(n, ast.Name) and n.id == name and isinstance(n.ctx, ast.Store)]) != 1:
+                continue
+            params = [x.arg for x in a.args]
+            # free names of the body must not be re-bound in the function (they are read at call time)
+            counts = {}
+            for n in ast.walk(fn):
+                if isinstance(n, ast.Name) and isinstance(n.ctx, ast.Store):
+                    counts[n.id] = counts.get(n.id, 0) + 1
+            free = {n.id for n in ast.walk(lam.body) if isinstance(n, ast.Name)} - set(params)
+            if any(counts.get(x, 0) > 1 for x in free):
+                continue
+            uses = [n for n in ast.walk(fn) if isinstance(n, ast.Name) and n.id == name and isinstance(n.ctx, ast.Load)]
+            calls = [c for c in ast.walk(fn) if isinstance(c, ast.Call) and isinstance(c.func, ast.Name) and c.func.id == name and
+                     not c.keywords and len(c.args) == len(params) and all(isinstance(x, (ast.Name, ast.Constant)) for x in c.args)]
+            if not calls or len(calls) != len(uses):
+                continue
+            for c in calls:
+                body = _Subst(dict(zip(params, c.args)), {}).visit(clone(lam.body))
+                ast.copy_location(body, c)
+                ast.fix_missing_locations(body)
+                _ReplaceNode(c, body).visit(fn)
+
+            class Drop(ast.NodeTransformer):
+                def visit_Assign(self, n):
+                    return None if n is d else n
+            Drop().visit(fn)
+            self.desugared += 1
+            changed = True
+        return changed
+
     def _desugar_iterator_pulls(self, stmts, fn):
         """it = (e for t in SRC if c)   [or a private generator function]   consumed only by k successive `next(it, d_i)`:
               v1 = d1; ...; vk = dk; n = 0
@@ -1677,6 +1718,7 @@ class Flattener(object):
             if self.inlined:
                 node.body = _fold_constant_tests(node.body) or [ast.Pass()]
             self._desugar_partials(node)
+            self._desugar_lambda_calls(node)
             node.body = self._desugar_iterator_pulls(node.body, node)
             node.body = self._desugar_dispatch(node.body, node)
             node.body = self.desugar(node.body)
